@@ -89,7 +89,14 @@ impl<T: Deref<Target = str>> BaseIriRef<T> {
 
     /// Resolves `iri` against this `BaseIriRef`.
     pub fn resolve<R: Resolvable<String>>(&self, iri: R) -> R::OutputRel {
-        R::output_rel(self.0.resolve(iri.borrow()).map(OxiriRef::into_inner))
+        let protect = self.needs_protection(iri.borrow());
+        R::output_rel(self.0.resolve(iri.borrow()).map(|res| {
+            let mut res = res.into_inner();
+            if protect {
+                protect_first_segment(&mut res, 0);
+            }
+            res
+        }))
     }
 
     /// Resolves `iri` against this `BaseIriRef`, using `buf` to store the result.
@@ -98,7 +105,20 @@ impl<T: Deref<Target = str>> BaseIriRef<T> {
         iri: R,
         buf: &'a mut String,
     ) -> R::OutputRel {
-        R::output_rel(self.0.resolve_into(iri.borrow(), buf).map(|()| &buf[..]))
+        let protect = self.needs_protection(iri.borrow());
+        let start = buf.len();
+        R::output_rel(self.0.resolve_into(iri.borrow(), buf).map(|()| {
+            if protect {
+                protect_first_segment(buf, start);
+            }
+            &buf[..]
+        }))
+    }
+
+    /// When neither this base nor `iri` has a scheme, the result has none either:
+    /// its first path segment must then not contain a colon (RFC 3986, section 4.2).
+    fn needs_protection(&self, iri: &str) -> bool {
+        !self.0.is_absolute() && !first_segment(iri).contains(':')
     }
 
     /// Convert this to a [`BaseIri`].
@@ -108,6 +128,19 @@ impl<T: Deref<Target = str>> BaseIriRef<T> {
     pub fn to_base_iri(self) -> BaseIri<T> {
         assert!(self.is_absolute());
         BaseIri(Oxiri::try_from(self.0).unwrap())
+    }
+}
+
+/// The part of `iri_ref` before the first `/`, `?` or `#`.
+fn first_segment(iri_ref: &str) -> &str {
+    iri_ref.split(['/', '?', '#']).next().unwrap_or("")
+}
+
+/// Precede the relative reference `buf[start..]` by `./`
+/// if its first path segment contains a colon (which would read as a scheme).
+fn protect_first_segment(buf: &mut String, start: usize) {
+    if first_segment(&buf[start..]).contains(':') {
+        buf.insert_str(start, "./");
     }
 }
 
